@@ -155,12 +155,30 @@ def model_bin():
 _audit_cache = {}
 
 
-def audit_theorems(names):
+def theorem_modules(names):
+    """the Lean modules that state the given theorems (found by name in the sources)"""
+    mods = set(); missing = []
+    srcs = {}
+    for f in glob.glob(os.path.join(LEAN, 'Nject*', '*.lean')):
+        srcs[f] = open(f).read()
+    for n in names:
+        short = n.split('.')[-1]
+        pat = re.compile(r'^\s*(?:private\s+)?(?:theorem|lemma)\s+(?:Nject\.)?%s\b' % re.escape(short), re.M)
+        hit = [f for f, t in srcs.items() if pat.search(t)]
+        if not hit:
+            missing.append(n)
+        for f in hit:
+            rel = os.path.relpath(f, LEAN)[:-5]
+            mods.add(rel.replace(os.sep, '.'))
+    return sorted(mods), missing
+
+
+def audit_theorems(names, imports=('NjectProps',)):
     """#print axioms for each theorem; returns {name: [axioms]} or raises with the lean log."""
-    key = tuple(names)
+    key = (tuple(names), tuple(imports))
     if key in _audit_cache:
         return _audit_cache[key]
-    src = 'import NjectProps\n' + ''.join('#print axioms %s\n' % n for n in names)
+    src = ''.join('import %s\n' % m for m in imports) + ''.join('#print axioms %s\n' % n for n in names)
     f = os.path.join(LEAN, '.lake', 'audit_%d.lean' % os.getpid())
     open(f, 'w').write(src)
     rc, log = sh(['lake', 'env', 'lean', f], cwd=LEAN, timeout=1800)
@@ -218,17 +236,27 @@ def proof_obligations(ctx, prop):
                              'differs_from_committed_snapshot': ctx.regen[2]}
     ok, log = lean_build()
     details = []
+    imports = ('NjectProps',)
     if not ok:
+        # Some module no longer builds (a regenerated table changed, a theorem over it no longer checks).  That concerns this
+        # property only if one of the modules stating ITS theorems (or the model driver) is affected: build just those.
         failing = sorted(set(re.findall(r'error: ([^\s:]+\.lean)', log)))
-        ctx.violations.append(('lean build failed: %s' % (', '.join(failing) or 'see log'),
-                               write_replay(ctx, 'lean_build_failed.txt', log[-6000:]), False))
-        return len(names), 0, [{'name': n, 'status': 'unchecked (build failed)'} for n in names]
+        mods, missing = theorem_modules(names)
+        ok2, log2 = (False, '') if (missing or not mods) else lean_build(tuple(mods) + ('njmodel',))
+        if not ok2:
+            failing2 = sorted(set(re.findall(r'error: ([^\s:]+\.lean)', log2))) or failing
+            ctx.violations.append(('lean build failed: %s' % (', '.join(failing2) or 'see log'),
+                                   write_replay(ctx, 'lean_build_failed.txt', (log2 or log)[-6000:]), False))
+            return len(names), 0, [{'name': n, 'status': 'unchecked (build failed)'} for n in names]
+        imports = tuple(mods)
+        ctx.cov['unrelated_modules_failing'] = failing
+        ctx.assumptions.append('other Lean modules (%s) do not build against the current /repo; none of them is imported by the modules that state this property\'s theorems, which were built and audited on their own' % ', '.join(failing))
     bad = grep_forbidden()
     if bad:
         ctx.violations.append(('forbidden construct in Lean sources', write_replay(ctx, 'forbidden.txt', '\n'.join(bad)), False))
     if not names:
         return 0, 0, []
-    rc, ax, alog = audit_theorems(names)
+    rc, ax, alog = audit_theorems(names, imports)
     discharged = 0
     for t in reg:
         n = t['name']
